@@ -140,8 +140,11 @@ def vals(t, k):
     elif nm == "mapping":
         ks = [x for x in vals(subs[0], k) if is_nan_free(x)]
         vs = vals(subs[1], k)
-        out = [{ks[i]: vs[i % len(vs)] for i in range(min(2, len(ks)))}, {},
-               {ks[-1]: vs[-1]}]
+        # first value: as many entries as there are keys, cycling through all
+        # values of the value type (so that e.g. 0.0 and -0.0, or two equal
+        # values, meet inside ONE mapping)
+        out = [{ks[i]: vs[i % len(vs)] for i in range(min(3, len(ks)))}, {},
+               {ks[-1]: vs[-1]}, {ks[i]: vs[0] for i in range(min(2, len(ks)))}]
     elif nm == "tuple":
         cs = [vals(s, k) for s in subs]
         out = [tuple(c[i % len(c)] for c in cs) for i in range(max(3, k))]
@@ -514,10 +517,12 @@ def poison():
     br = bridge()
     g = br.g
     raised = 0
-    for val, tname in (([7, 300], "sequence<uint8_t>"),
+    # (the unknown-codec failure first: its handler is a natural place for a
+    # clean-up that the other failure paths lack)
+    for val, tname in (([1, 2], "sequence<nosuchcodec>"),
                        ([1, "two"], "sequence<int64_t>"),
                        ({"k": [1, None]}, "mapping<string,sequence<uint8_t>>"),
-                       ([1, 2], "sequence<nosuchcodec>")):
+                       ([7, 300], "sequence<uint8_t>")):
         try:
             br.ser.encode(io.BytesIO(), val, tname)
         except Exception:  # noqa
@@ -577,7 +582,10 @@ def work(task):
     n = 0
     bad = []
     ir_path = label.startswith("depth<=1")
+    hangs = 0
     for ti, t in enumerate(types):
+        if hangs >= 3 or len(bad) >= 40:
+            break  # enough evidence from this batch; do not sit out timeouts
         if ti % 25 == 0:
             poison()
         for i, v in enumerate(vals(t, k)):
@@ -589,6 +597,7 @@ def work(task):
                         n += 1
                         res = res + ir_path_case(t, v, i)
             except (common.Hang, MemoryError) as e:
+                hangs += 1
                 res = [("C07", "hang-or-unbounded-allocation:"
                         + type(e).__name__, str(e)),
                        ("C08", "hang-or-unbounded-allocation:"
@@ -760,9 +769,17 @@ def java_crosscheck(ctx, repo, k):
                     continue
                 cases.append((t, v, b))
                 lines.append("%s %s" % (tname.replace(" ", ""), b.hex() or "-"))
-        p = subprocess.run(
-            ["java", "-Xss64m", "-cp", cp, "XCheck"],
-            input="\n".join(lines) + "\n", capture_output=True, text=True)
+        try:
+            p = subprocess.run(
+                ["java", "-Xss64m", "-Xmx2g", "-cp", cp, "XCheck"],
+                input="\n".join(lines) + "\n", capture_output=True, text=True,
+                timeout=240 if ctx.tier == "quick" else 1200)
+        except subprocess.TimeoutExpired:
+            # bytes that make the Java decoder loop on a bogus element count
+            return {"java": "timeout", "java_cases": len(cases)}, [
+                ("C08", "java-decoder-did-not-finish", "<batch>", "<batch>",
+                 "the repository's Java codec did not finish decoding this "
+                 "API's bytes within the time limit")]
         if p.returncode != 0:
             raise RuntimeError("XCheck failed: " + p.stderr[-2000:])
         outl = p.stdout.splitlines()
